@@ -441,7 +441,20 @@ template <typename... Args, typename>
 inline void ReusableVector<T, MonotonicAllocator<U, A>>::emplace_back(
     Args&&... args) noexcept {
   if (_size == _capacity) {
-    reserve(_capacity == 0 ? 4 : _capacity * 2);
+    // args may refer to an element of this vector, e.g. push_back(v[0]),
+    // construct the new element before existing ones are moved away
+    auto new_capacity = _capacity == 0 ? 4 : _capacity * 2;
+    auto new_data = _allocator.allocate(new_capacity);
+    _allocator.construct(&new_data[_size], ::std::forward<Args>(args)...);
+    for (size_type i = 0; i < _constructed_size; ++i) {
+      _allocator.construct(&new_data[i], ::std::move(_data[i]));
+      _allocator.destroy(&_data[i]);
+    }
+    _data = new_data;
+    _capacity = new_capacity;
+    ++_size;
+    ++_constructed_size;
+    return;
   }
   if (_constructed_size > _size) {
     ValueReusableTraits::reconstruct(_data[_size++], _allocator,
